@@ -319,6 +319,9 @@ func (g *Global) loadContracts(specDir string) error {
 			return err
 		}
 	}
+	if err := g.expandRefinements(); err != nil {
+		return err
+	}
 	// a trusted unit that promises a fresh result must be marked `allocates`: otherwise the allocation counter does
 	// not advance at the call and fresh(result) contradicts the typing fact result <= $alloc (callers become vacuous)
 	var bad []string
@@ -1109,21 +1112,26 @@ func (g *Global) targetsLocked(cg *callgraph.Graph, f *ssa.Function, res *writeS
 			if ci, ok := in.(ssa.CallInstruction); ok {
 				if key := funcFieldKey(ci.Common().Value); key != "" && !ci.Common().IsInvoke() {
 					if u := g.C.Units[key]; u != nil {
-						refined[ci] = true
 						if res != nil {
 							g.unitModKeys(u, nil, res)
 						}
-						continue
+						if !u.ModInferred {
+							refined[ci] = true
+							continue
+						}
 					}
 				}
 				if ci.Common().IsInvoke() {
-					// an interface method with a (trusted) contract: its modifies clause is its effect
+					// an interface method with a (trusted) contract: its modifies clause is its effect -- unless it says
+					// `modifies inferred, ...`: then the listed items are added to what the possible targets (VTA) write
 					if u := g.C.Units[ifaceKey(ci.Common().Value.Type(), ci.Common().Method.Name())]; u != nil {
-						refined[ci] = true
 						if res != nil {
 							g.unitModKeys(u, nil, res)
 						}
-						continue
+						if !u.ModInferred {
+							refined[ci] = true
+							continue
+						}
 					}
 				}
 				if callee := ci.Common().StaticCallee(); callee != nil && !g.isPureLib(callee) {
@@ -1910,7 +1918,13 @@ func (g *Global) callWrites(fn *ssa.Function, c *ssa.CallCommon) (map[string]boo
 			g.mu.Lock()
 			g.unitModKeys(u, nil, ws)
 			g.mu.Unlock()
-			return ws.keys, ws.all
+			if !u.ModInferred {
+				return ws.keys, ws.all
+			}
+			for k := range ws.keys {
+				res[k] = true
+			}
+			all = all || ws.all
 		}
 	}
 	if c.IsInvoke() {
@@ -1920,7 +1934,14 @@ func (g *Global) callWrites(fn *ssa.Function, c *ssa.CallCommon) (map[string]boo
 			g.mu.Lock()
 			g.unitModKeys(u, nil, ws)
 			g.mu.Unlock()
-			return ws.keys, ws.all
+			if !u.ModInferred {
+				return ws.keys, ws.all
+			}
+			// `modifies inferred, ...` on an interface contract: the listed items plus the write sets of the possible targets
+			for k := range ws.keys {
+				res[k] = true
+			}
+			all = all || ws.all
 		}
 	}
 	cg := g.callGraph()
